@@ -685,6 +685,10 @@ func feasibleSuccsH(b *ssa.BasicBlock, hist []*ssa.BasicBlock) (onTrue, onFalse 
 	ev, at := resolveThrough(phi.Edges[idx], hist)
 	t := truthiness(ev, at)
 	if t == 0 {
+		// the entering edge itself may be a branch of a test of that value (`if err == nil {...}; if err != nil`)
+		t = truthOnEdge(ev, via, b)
+	}
+	if t == 0 {
 		return true, true
 	}
 	truthy := t > 0
@@ -1959,6 +1963,13 @@ func stringSet(p *Program, v ssa.Value) ([]string, bool) {
 					return
 				}
 			}
+			// a row of an array that is ranged over by value: Index(load(array cell), i).field
+			if ix, isIx := x.X.(*ssa.Index); isIx {
+				if ld, isLd := ix.X.(*ssa.UnOp); isLd && ld.Op == token.MUL {
+					rowFieldStrings(p, ld.X, x.Field, seen, out, &ok)
+					return
+				}
+			}
 			ok = false
 		case *ssa.ChangeType:
 			walk(x.X)
@@ -2130,6 +2141,13 @@ func fieldOfLocalStrings(p *Program, al *ssa.Alloc, fld int, out map[string]bool
 				case *ssa.Alloc:
 					fieldOfLocalStrings(p, a, fld, out, ok)
 				default:
+					*ok = false
+				}
+			} else if ix, isIx := r.Val.(*ssa.Index); isIx {
+				// an element of an array ranged over by value: Index(load(array cell), i)
+				if ld, isLd := ix.X.(*ssa.UnOp); isLd && ld.Op == token.MUL {
+					rowFieldStrings(p, ld.X, fld, nil, out, ok)
+				} else {
 					*ok = false
 				}
 			} else {
